@@ -567,21 +567,26 @@ Qed.
 
 (* ---- shiftXML --------------------------------------------------------------------------------------- *)
 Lemma xml_loop_spec raw z : lx_wf z -> forall fuel, (Z.to_nat (lx_len z - lpos z) < fuel)%nat ->
-  forall q, safe (loop fuel (xml_body raw) (z, q)) (sum_adv z).
+  forall it q, safe (loop fuel (xml_body raw) (z, it, q)) (sum_adv z).
 Proof.
-  intros Hw fuel Hf q.
-  apply (safe_cloop fst z (fun _ => True)); [|apply adv_refl, Hw|exact I|exact Hf].
-  intros [s q0] Ha _. cbn [fst] in *. unfold xml_body.
+  intros Hw fuel Hf it0 q.
+  apply (safe_cloop (fun s : lx * bool * Z => fst (fst s)) z (fun _ => True)); [|apply adv_refl, Hw|exact I|exact Hf].
+  intros [[s it] q0] Ha _. cbn [fst] in *. unfold xml_body.
   assert (Hws : lx_wf s) by eauto using adv_wf.
   peek0 s c Hc Hp.
-  destruct (c =? 34) eqn:E34.
-  { cbn [safe fst]. split; [apply (adv_mv_nz z s 0 c); try assumption; nz || lia|split; [cbn; lia|exact I]]. }
-  assert (He : safe (if (c =? 60) && negb q0 then c1 <-- pkr s 1;; Ok (c1 =? 47) else Ok false)
-                    (fun e => e = true -> lpos s + 2 <= lx_len s)).
-  { destruct ((c =? 60) && negb q0) eqn:E; [|cbn; discriminate]. apply andb_true_iff in E. destruct E as [E60 _].
-    peek1 s c Hp c1 Hc1 Hp1. cbn [safe]. intros E47. pose proof (pk_nz_lt s 1 c1 Hws Hp1 ltac:(nz)). lia. }
-  eapply safe_bind; [exact He|]. cbn beta. intros e He2. destruct e.
-  { specialize (He2 eq_refl).
+  assert (Hstep : forall (it' : bool) (q' : Z), (c =? 0) = false ->
+            adv z (fst (fst (mv s 1, it', q'))) /\ lpos s < lpos (fst (fst (mv s 1, it', q'))) /\ True).
+  { intros it' q' E0. cbn [fst]. split; [apply (adv_mv_nz z s 0 c); try assumption; nz || lia|split; [cbn; lia|exact I]]. }
+  destruct (negb (q0 =? 0) && negb (c =? 0)) eqn:Eq.
+  { cbn [safe]. apply Hstep. apply andb_true_iff in Eq. destruct Eq as [_ Eq]. apply negb_true_iff in Eq. exact Eq. }
+  destruct (it && negb (c =? 0)) eqn:Ei.
+  { cbn [safe]. apply Hstep. apply andb_true_iff in Ei. destruct Ei as [_ Ei]. apply negb_true_iff in Ei. exact Ei. }
+  destruct (c =? 60) eqn:E60.
+  { peek1 s c Hp c1 Hc1 Hp1.
+    destruct (negb (c1 =? 47)) eqn:E47.
+    { cbn [safe]. apply Hstep. b2p. subst c. reflexivity. }
+    apply negb_false_iff in E47.
+    assert (He2 : lpos s + 2 <= lx_len s) by (pose proof (pk_nz_lt s 1 c1 Hws Hp1 ltac:(nz)); lia).
     assert (Hm2 : adv z (mv s 2)) by (apply adv_mv'; [exact Ha|lia|lia]).
     eapply safe_bind; [apply letters_loop_spec; eauto using adv_wf|]. cbn beta. intros z2 (Hz2 & _).
     pose proof (adv_lpos_le _ _ Hz2) as Hle. cbn [mv lpos] in Hle.
@@ -592,7 +597,7 @@ Proof.
     destruct (h =? raw); cbn [safe fst sum_adv]; [eauto using adv_trans|].
     split; [eauto using adv_trans|split; [lia|exact I]]. }
   destruct (c =? 0) eqn:E0; cbn [safe fst sum_adv]; [exact Ha|].
-  split; [apply (adv_mv_nz z s 0 c); try assumption; nz || lia|split; [cbn; lia|exact I]].
+  apply (Hstep it q0). reflexivity.
 Qed.
 
 Lemma xml_close_loop_spec z : lx_wf z -> forall fuel, (Z.to_nat (lx_len z - lpos z) < fuel)%nat ->
